@@ -282,8 +282,10 @@ class Ctx:
         ev = {"property_id": self.prop, "tier": self.tier, "seed": self.seed, "level": level, "coverage": cov,
               "assumptions": (assumptions or []) + self.assumptions, "wall_s": round(time.time() - self.t0, 1),
               "violations": len(printed)}
-        os.makedirs(os.path.join(ROOT, "evidence"), exist_ok=True)
-        json.dump(ev, open(os.path.join(ROOT, "evidence", self.prop + ".json"), "w"), indent=1, default=str)
+        # runs against a scratch worktree (VERIF_REPO) must not overwrite the evidence of /repo
+        evdir = os.path.join(ROOT, "evidence") if REPO == "/repo" else os.path.join(ROOT, "out", "evidence-scratch")
+        os.makedirs(evdir, exist_ok=True)
+        json.dump(ev, open(os.path.join(evdir, self.prop + ".json"), "w"), indent=1, default=str)
         if rc == 0 and (cov["states"] < 1 or cov["evaluations"] < 1 or not cov["samples"]):
             raise Broken("nothing was explored (states=%s evaluations=%s)" % (cov["states"], cov["evaluations"]))
         log("%s %s: %s in %.1fs" % (self.prop, self.tier, "HELD" if rc == 0 else "VIOLATED", time.time() - self.t0))
